@@ -517,10 +517,10 @@ Lemma add_vote_inv peer v s : Inv1 s -> Inv1 (add_vote valid vals proposer mkblo
 Proof.
   intros I. unfold add_vote.
   destruct (_ && vtype_eqb _ _).
-  { destruct (negb _); [exact I|]. destruct (last_commit s) as [[lr vs]|]; [|exact I].
+  { destruct (negb _); [exact I|]. destruct (last_commit s) as [[[lh lr] vs]|]; [|exact I].
     destruct (_ || _); [exact I|]. destruct (vs_add _ _ _ _) as [vs' added].
     destruct (negb added); [exact I|].
-    assert (I1 : Inv1 (set_last_commit (Some (lr, vs')) s)) by (eapply Inv1_core; [|exact I]; repeat split).
+    assert (I1 : Inv1 (set_last_commit (Some (lh, lr, vs')) s)) by (eapply Inv1_core; [|exact I]; repeat split).
     destruct (_ && _); [|exact I1]. apply enter_new_round_inv; auto. }
   destruct (negb (v_height v =? height s)); [exact I|].
   pose proof (hvs_add_core peer v s) as C1.
